@@ -5,7 +5,7 @@ from vlib.runner import Batch
 from props import c06
 
 ID = "C01"
-LEAN_PROPS = ["FcpptProofs.Props.C01"]
+LEAN_PROPS = ["FcpptProofs.Props.C01", "FcpptProofs.Props.C01.Scalar"]
 LEAN_EXTRA = ["FcpptModel.Gen.Scalar"]
 HARNESS = {"src": "harness/c01.cpp", "flags": ["-DFCPPT_HAVE_GCC_DEMANGLE"], "repo_srcs": [
     "libs/options/impl/src/options/impl/is_flag.cpp", "libs/options/impl/src/options/impl/next_arg.cpp",
